@@ -55,6 +55,11 @@ type World struct {
 	vio  []Violation
 	// slowest is the longest virtual time any environment event stayed pending before it was answered.
 	slowest time.Duration
+	// statement-level points (see points.go)
+	pointsOn   bool
+	pointCount map[string]int
+	pointsSeen []string
+	armed      map[string]bool
 }
 
 // SlowestAnswer returns the longest virtual time a gate stayed pending before it was granted (or the run ended).
